@@ -121,6 +121,8 @@ def run_kernel_item(item):
             out['contracts'] = out.get('contracts', []) + contracts.install_ldt(eng)
         if item.get('classes'):
             from llsym import contracts
+            if item.get('exact_out_of_range'):
+                eng.intercepts[contracts.FOR_EPOCH_DAYS] = contracts.for_epoch_days
             eng.intercepts[contracts.LD_FOR_EPOCH_SECONDS] = contracts.classes_contract(item['classes'])
             eng.resolve_bools = True
         if item.get('year_contract'):
